@@ -15,17 +15,19 @@ type zzC05XF struct {
 	m      int64
 	e      int
 	single bool
+	plus1  bool // long-float only: the value is m*2^e + 1, which needs more than 53 significant bits
 }
 
 var zzC05XFloats = []zzC05XF{
-	{1, 24, true}, {1<<24 - 1, 0, true}, {1<<23 + 1, 1, true}, // 2^24, 2^24-1, 2^24+2
-	{1, 53, true}, {1<<53 - 1, 0, false}, {1<<52 + 1, 1, false}, // 2^53, 2^53-1, 2^53+2
-	{1, 63, true}, {1<<53 - 1, 10, false}, {1<<52 + 1, 11, false}, // 2^63, 2^63-1024, 2^63+2048
-	{-1, 63, true}, {-(1<<52 + 1), 11, false}, {-(1<<53 - 1), 10, false}, // -2^63, -2^63-2048, -2^63+1024
-	{1, 64, true}, {1<<53 - 1, 11, false}, // 2^64, 2^64-2048
-	{1, -1, true}, {-3, -1, true}, {0, 0, true}, // 0.5 -1.5 0
-	{1<<24 - 1, 39, true}, {1<<23 + 1, 40, true}, // 2^63-2^39, 2^63+2^40 (single-float neighbours of 2^63)
-	{1<<23 + 1, 30, true}, // 2^53+2^30 (single-float neighbour of 2^53)
+	{1, 24, true, false}, {1<<24 - 1, 0, true, false}, {1<<23 + 1, 1, true, false}, // 2^24, 2^24-1, 2^24+2
+	{1, 53, true, false}, {1<<53 - 1, 0, false, false}, {1<<52 + 1, 1, false, false}, // 2^53, 2^53-1, 2^53+2
+	{1, 63, true, false}, {1<<53 - 1, 10, false, false}, {1<<52 + 1, 11, false, false}, // 2^63, 2^63-1024, 2^63+2048
+	{-1, 63, true, false}, {-(1<<52 + 1), 11, false, false}, {-(1<<53 - 1), 10, false, false}, // -2^63, -2^63-2048, -2^63+1024
+	{1, 64, true, false}, {1<<53 - 1, 11, false, false}, // 2^64, 2^64-2048
+	{1, -1, true, false}, {-3, -1, true, false}, {0, 0, true, false}, // 0.5 -1.5 0
+	{1<<24 - 1, 39, true, false}, {1<<23 + 1, 40, true, false}, // 2^63-2^39, 2^63+2^40 (single-float neighbours of 2^63)
+	{1<<23 + 1, 30, true, false}, // 2^53+2^30 (single-float neighbour of 2^53)
+	{1, 64, false, true}, {1, 53, false, true}, {-1, 64, false, true}, {3, 70, false, true}, // 2^64+1, 2^53+1, -2^64+1, 3*2^70+1 (long-float only)
 }
 
 var zzC05XFarInts = []int64{-1 << 63, 1<<63 - 1, 0, -1, 1, 1 << 62, -1 << 62, 1 << 31, -1 << 31, 1<<53 + 1, -(1<<53 + 1)}
@@ -38,6 +40,7 @@ var zzC05XFarInts = []int64{-1 << 63, 1<<63 - 1, 0, -1, 1, 1 << 62, -1 << 62, 1 
 func VerifC05XFloatCmp(fk int, fi int, ik int, off int, swap int) {
 	g := zzC05XFloats[fi]
 	vrt.Assume(fk != 0 || g.single)
+	vrt.Assume(!g.plus1 || fk == 2)
 	fv := float64(g.m) // exact: |m| < 2^53
 	for i := 0; i < g.e; i++ {
 		fv *= 2
@@ -53,6 +56,11 @@ func VerifC05XFloatCmp(fk int, fi int, ik int, off int, swap int) {
 		f = slip.DoubleFloat(fv)
 	default:
 		f = (*slip.LongFloat)(new(big.Float).SetPrec(128).SetFloat64(fv))
+		if g.plus1 {
+			iv := new(big.Int).Lsh(big.NewInt(g.m), uint(g.e))
+			iv.Add(iv, big.NewInt(1))
+			f = (*slip.LongFloat)(new(big.Float).SetPrec(128).SetInt(iv))
+		}
 	}
 	// exact value of the float: fn/fd
 	fn, fd := big.NewInt(g.m), big.NewInt(1)
@@ -60,6 +68,9 @@ func VerifC05XFloatCmp(fk int, fi int, ik int, off int, swap int) {
 		fn.Lsh(fn, uint(g.e))
 	} else {
 		fd.Lsh(fd, uint(-g.e))
+	}
+	if g.plus1 {
+		fn.Add(fn, big.NewInt(1))
 	}
 	center := new(big.Int).Quo(fn, fd)
 	var x slip.Object
